@@ -147,6 +147,7 @@ type Exec struct {
 	memoSeq       int
 	pcChecked     int
 	local         *localRun
+	spins         int
 	streams       []*StreamObj
 	lastRead      *StreamObj
 	initDone      bool
